@@ -235,6 +235,12 @@ func returnsUnder(fn *ssa.Function, keep edgeKeep) []*ssa.Return {
 
 // isFreshError reports whether v is a newly built non-nil error (errors.New / fmt.Errorf).
 func (w *World) isFreshError(v ssa.Value) bool {
+	// a sentinel error variable of a library package (io.EOF, io.ErrUnexpectedEOF, ...) is non-nil
+	if u, ok := strip(v).(*ssa.UnOp); ok && u.Op == token.MUL {
+		if g, ok := u.X.(*ssa.Global); ok && g.Pkg != w.Main && (strings.HasPrefix(g.Name(), "Err") || g.Name() == "EOF") {
+			return true
+		}
+	}
 	c, _ := callOfResult(v)
 	if c == nil {
 		return false
